@@ -2,7 +2,7 @@
 use super::histprop::HistProp;
 use crate::hist::{Act, Effect, Interp, Monitor, Obs, Step};
 use crate::ops::{CfgProfile, Weights};
-use crate::oracle::{pos_ref, PosRef};
+use crate::oracle::{pos_ref_m, PosRef};
 use crate::refmath::{ratio, S};
 use crate::run::{Outcome, Violation};
 use crate::world::World;
@@ -24,7 +24,7 @@ impl Monitor for Mon {
         self.pre_fc = None;
         if let Some((v, t)) = act.subject() {
             if matches!(act, Act::Open { .. } | Act::Withdraw { .. } | Act::Deposit { .. }) {
-                self.pre_ref = pos_ref(&it.w, pre, v, t);
+                self.pre_ref = pos_ref_m(&it.w, pre, v, t);
             }
             if let Act::Withdraw { .. } = act {
                 self.pre_fc = it
@@ -64,7 +64,7 @@ impl Monitor for Mon {
                     out.count("leverage_at_boundary");
                 }
                 if s.res.ok {
-                    if let Some(pr) = pos_ref(w, s.post, *v, *t) {
+                    if let Some(pr) = pos_ref_m(w, s.post, *v, *t) {
                         let maint = S::pos(s.post.ecfg.maintenance_margin_ratio.u128());
                         out.count("post_open_ratio_checks");
                         // the engine's own answer
